@@ -43,6 +43,32 @@ def conv_of(e):
     return None
 
 
+def order_class(e):
+    """net byte-order effect of the conversions in e: 'be' when the value crosses between host order and network (big
+    endian) order an odd number of times, 'le' likewise for little endian, 'none' otherwise.  `x.to_be()`,
+    `from_ne_bytes(x.to_be_bytes())` are the same; so are `from_ne_bytes(ip.octets())` and `ip.to_bits().to_be()`
+    (octets are the address in network order), `Ipv4Addr::from(x.to_ne_bytes())` and `Ipv4Addr::from_bits(u32::from_be(x))`."""
+    be = le = 0
+    for x in subexprs(e):
+        if x[0] != 'call':
+            continue
+        m = re.match(r'^core::num::<impl [ui](16|32|64|128)>::(\w+)$', x[1])
+        if m:
+            n = m.group(2)
+            if n in ('to_be', 'from_be', 'to_be_bytes', 'from_be_bytes', 'swap_bytes') and n != 'swap_bytes':
+                be += 1
+            elif n in ('to_le', 'from_le', 'to_le_bytes', 'from_le_bytes'):
+                le += 1
+            elif n == 'swap_bytes':
+                be += 1
+            continue
+        if x[1] in ('std::net::Ipv4Addr::octets', 'std::net::Ipv6Addr::octets', 'std::net::Ipv6Addr::segments'):
+            be += 1
+        if x[1] in ('std::convert::From::from', 'std::convert::Into::into') and re.search(r'Ipv[46]Addr as std::convert::From<\[u(8|16); \d+\]>', str(x[3] or '')):
+            be += 1
+    return 'be' if be % 2 else ('le' if le % 2 else 'none')
+
+
 def accessor_of(e):
     names = [x[1].rsplit('::', 1)[1] for x in subexprs(e) if x[0] == 'call' and x[1].startswith('std::net::')]
     return [n for n in names if n in ('port', 'ip', 'octets', 'flowinfo', 'scope_id')]
@@ -62,8 +88,9 @@ def flatten_agg(e, prefix=''):
 
 def r1_field_agreement(r, facts):
     plan = {
-        'std::net::SocketAddrV4': {'sin_port': ('port', 'to_be'), 'sin_addr.s_addr': ('ip', 'from_ne_bytes')},
-        'std::net::SocketAddrV6': {'sin6_port': ('port', 'to_be'), 'sin6_addr.s6_addr': ('ip', None), 'sin6_flowinfo': ('flowinfo', None), 'sin6_scope_id': ('scope_id', None)},
+        # (accessor, byte-order class of the stored value: ports and addresses in network order, the rest as is)
+        'std::net::SocketAddrV4': {'sin_port': ('port', 'be'), 'sin_addr.s_addr': ('ip', 'be')},
+        'std::net::SocketAddrV6': {'sin6_port': ('port', 'be'), 'sin6_addr.s6_addr': ('ip', 'be'), 'sin6_flowinfo': ('flowinfo', 'none'), 'sin6_scope_id': ('scope_id', 'none')},
     }
     ctor_arg = {'std::net::SocketAddrV4': ['ip', 'port'], 'std::net::SocketAddrV6': ['ip', 'port', 'flowinfo', 'scope_id']}
     for ty, want in plan.items():
@@ -80,7 +107,7 @@ def r1_field_agreement(r, facts):
         for fld, v in written.items():
             if v[0] == 'const' or (v[0] == 'cast' and v[4][0] == 'const') or v[0] == 'repeat':
                 continue  # family constant / zero padding
-            wf[fld] = (accessor_of(v), conv_of(v))
+            wf[fld] = (accessor_of(v), order_class(v))
             # unconditional: a value chosen on a condition (`if link_local { scope_id } else { 0 }`) drops the
             # component for part of the address space although the reader decodes it for all of it
             core = v
@@ -113,7 +140,7 @@ def r1_field_agreement(r, facts):
             for fl in flds:
                 longest = max(flds, key=len)
                 if fl == longest:
-                    rf[fl] = (ctor_arg[ty][pos] if pos < len(ctor_arg[ty]) else '?', conv_of(a))
+                    rf[fl] = (ctor_arg[ty][pos] if pos < len(ctor_arg[ty]) else '?', order_class(a))
         r.inst('%s reads %s' % (ty, rf), rd.where())
         r.require(set(wf) == set(want), ty + '/writer-fields', 'into_storage writes fields %s, expected %s' % (sorted(wf), sorted(want)), w.where())
         r.require(set(rf) == set(wf), ty + '/field-sets', 'fields written %s and fields read back %s differ (a component of the address does not survive the round trip)' % (sorted(wf), sorted(rf)), rd.where())
@@ -123,7 +150,7 @@ def r1_field_agreement(r, facts):
                 r.require(wf[fld][1] == conv, '%s/%s/conv' % (ty, fld), 'field %s is written with conversion %s, expected %s' % (fld, wf[fld][1], conv), w.where())
             if fld in rf:
                 r.require(rf[fld][0] == acc, '%s/%s/ctor-arg' % (ty, fld), 'field %s is read into constructor argument %s, expected %s' % (fld, rf[fld][0], acc), rd.where())
-                r.require(rf[fld][1] == CONV_PAIR.get(conv, '?'), '%s/%s/conv-pair' % (ty, fld), 'field %s is written with %s but read with %s (byte order does not round-trip)' % (fld, conv, rf[fld][1]), rd.where())
+                r.require(rf[fld][1] == conv, '%s/%s/conv-pair' % (ty, fld), 'field %s is written with byte-order class %s but read with %s (byte order does not round-trip)' % (fld, conv, rf[fld][1]), rd.where())
     # either-family type dispatches on the family in both directions
     ty = 'std::net::SocketAddr'
     w, rd, ap_ = impl_fn(facts, ty, 'into_storage'), impl_fn(facts, ty, 'init'), impl_fn(facts, ty, 'as_ptr')
@@ -183,6 +210,9 @@ def _start_offset(e):
             off += x[2][0][1]
         if x[0] == 'proj' and x[2][:1] == ('.1',) and x[1][0] == 'call' and 'split_at' in x[1][1] and x[1][2][1][0] == 'const' and x[1][2][1][1] is not None:
             off += x[1][2][1][1]
+        # `split_first()`: the rest starts behind the first element
+        if x[0] == 'proj' and x[1][0] == 'call' and x[1][1].endswith('::split_first') and tuple(x[2][:3]) == ('@Some', '.0', '.1'):
+            off += 1
         # a slice pattern `[first, rest @ ..]`: the sub-slice projection starts behind the matched elements
         if x[0] == 'proj':
             for p_ in x[2]:
@@ -243,6 +273,8 @@ def r1b_unix_layout(r, facts):
             continue
         e = er.operand(tt['discr'])
         first_elem = e[0] == 'proj' and e[2] and e[2][-1] == '[0]' and 'from_raw_parts' in str(e)     # `[0, rest @ ..]`
+        if e[0] == 'proj' and e[1][0] == 'call' and e[1][1].endswith('::split_first') and tuple(x_ for x_ in e[2] if x_ != '*')[:3] == ('@Some', '.0', '.0'):
+            first_elem = True                                                                      # `Some((&0, rest)) = split_first()`
         if any(x[0] == 'call' and x[1].endswith('::first') for x in subexprs(e)) or first_elem:
             vals = {int(v): tg for v, tg in tt['targets']}
             if 0 in vals and 'abstract' in rdoff and rd.edge_dominates((b, vals[0]), rdoff['abstract'][1]):
@@ -297,10 +329,14 @@ def r2_ptr_len(r, facts):
             r.inst('%s::%s -> (%s, %s)' % (ty, meth, p, ln), f.where())
             r.require(p[0] == 'arg' and p[1] == 1, '%s::%s/ptr' % (ty, meth), 'pointer returned is not the storage parameter: %s' % (p,), f.where())
             szs = sorted({x[1] for x in subexprs(ln) if x[0] == 'call' and x[1].startswith('std::mem::size_of::<')})
+            # by value: a size_of::<T>() call or a named constant with that value alike
+            lv = _len_value(facts, ln)
             if ty in sizes:
-                r.require(szs == ['std::mem::size_of::<%s>' % sizes[ty]], '%s::%s/len' % (ty, meth), 'length is %s, expected size_of::<%s>()' % (szs, sizes[ty]), f.where())
+                want_ = facts.layouts.get(sizes[ty], (None,))[0]
+                r.require(szs == ['std::mem::size_of::<%s>' % sizes[ty]] or (lv is not None and lv == want_), '%s::%s/len' % (ty, meth), 'length is %s (%s), expected size_of::<%s>()' % (szs, lv, sizes[ty]), f.where())
             elif ty == 'std::net::SocketAddr' and meth == 'as_mut_ptr':
-                r.require(szs == ['std::mem::size_of::<libc::sockaddr_in6>'], '%s::%s/len' % (ty, meth), 'receive storage length is %s, expected the larger sockaddr_in6' % szs, f.where())
+                want_ = facts.layouts.get('libc::sockaddr_in6', (None,))[0]
+                r.require(szs == ['std::mem::size_of::<libc::sockaddr_in6>'] or (lv is not None and lv == want_), '%s::%s/len' % (ty, meth), 'receive storage length is %s (%s), expected the larger sockaddr_in6' % (szs, lv), f.where())
             elif ty == 'std::net::SocketAddr':
                 # decided by value: with the family field fixed to AF_INET the length returned is the size of sockaddr_in,
                 # with AF_INET6 that of sockaddr_in6 (if/else, match, a flag, size_of calls or named constants alike)
@@ -337,6 +373,60 @@ TRIM_IDIOMS = ('core::slice::<impl [T]>::iter', 'std::iter::Iterator::position',
                'std::iter::Iterator::take_while', 'core::slice::<impl [u8]>::trim_end_matches')
 
 
+def _kind_by_length(r, f, eb):
+    """which kind of address is read back is decided by the bytes of sun_path; the reported length may only short-cut to
+    `unnamed` when it leaves no byte of path at all (length <= offset_of(sun_path) = 2).  `length == 3` is the abstract
+    address with the empty name, `length >= 4` a one-byte path or name."""
+    from .kernel import eval_int
+    raws = [l_ for l_, t_ in f.calls() if (t_.get('callee') or '') == 'std::slice::from_raw_parts' and not f.blocks[l_[0]]['cleanup']]
+    if not raws:
+        return
+    rets = f.returns()
+
+    def strip(x):
+        while x[0] == 'cast':
+            x = x[4]
+        return x
+    is_len = lambda x: strip(x)[0] == 'arg' and strip(x)[1] == 2
+    n = 0
+    for b, blk in enumerate(f.blocks):
+        t = blk['term']
+        if blk['cleanup'] or t['k'] != 'switch':
+            continue
+        e = strip(eb.operand(t['discr']))
+        if e[0] != 'bin' or e[1] not in ('Le', 'Lt', 'Ge', 'Gt', 'Eq', 'Ne'):
+            continue
+        a_, b_ = e[2], e[3]
+        op = e[1]
+        if is_len(b_) and not is_len(a_):
+            a_, b_ = b_, a_
+            op = {'Le': 'Ge', 'Lt': 'Gt', 'Ge': 'Le', 'Gt': 'Lt'}.get(op, op)
+        if not is_len(a_):
+            continue
+        k = eval_int(f, eb, b_)
+        vals = {int(v): g for v, g in t['targets']}
+        edges = {1: vals.get(1, t['otherwise']), 0: vals.get(0, t['otherwise'])}
+        for truth, tgt in edges.items():
+            hit = f.forward_paths_hit([Loc(tgt, 0)], rets, blockers=raws)
+            if hit is None:
+                continue        # the path bytes are looked at (or the edge panics)
+            n += 1
+            # largest length for which this edge is taken
+            if k is None:
+                hi = None
+            elif (op, truth) in (('Le', 1), ('Gt', 0)):
+                hi = k
+            elif (op, truth) in (('Lt', 1), ('Ge', 0)):
+                hi = k - 1
+            elif (op, truth) in (('Eq', 1), ('Ne', 0)):
+                hi = k
+            else:
+                hi = float('inf')
+            r.inst('unix init: returns without reading sun_path for length %s %s (edge %s)' % (op, k, truth), f.where(f.term_loc(b)))
+            if hi is not None:
+                r.require(hi <= 2, 'unix::init/kind-by-length', 'the Unix reader returns without looking at sun_path for reported lengths up to %s: from length 3 on there is a byte of path (3 = the abstract address with the empty name, which would read back as unnamed)' % hi, f.where(f.term_loc(b)))
+
+
 def r3_nul_trim(r, facts):
     f = impl_fn(facts, 'std::os::unix::net::SocketAddr', 'init')
     if not r.require(f is not None, 'unix::init', 'Unix SocketAddress::init not found'):
@@ -345,9 +435,12 @@ def r3_nul_trim(r, facts):
     fp = [(loc, t) for loc, t in f.calls() if (t.get('callee') or '') == 'std::os::unix::net::SocketAddr::from_pathname' and not f.blocks[loc[0]]['cleanup']]
     if not r.require(len(fp) >= 1, 'unix::init/from_pathname', 'from_pathname call not found', f.where()):
         return
-    loc, t = fp[0]
+    # (the unnamed fallback `from_pathname("")` is also a from_pathname call: the one that decodes is the one fed from storage)
+    fed = [(l_, t_) for l_, t_ in fp if any(x[0] == 'call' and x[1] == 'std::slice::from_raw_parts' for x in subexprs(eb.operand(t_['args'][0])))]
+    loc, t = (fed or fp)[0]
     e = eb.operand(t['args'][0])
     raw = [x for x in subexprs(e) if x[0] == 'call' and x[1] == 'std::slice::from_raw_parts']
+    _kind_by_length(r, f, eb)
     trimmed = [x for x in subexprs(e) if x[0] == 'call' and (x[1] in TRIM_IDIOMS or x[1] in ('std::ops::Index::index',))]
     # an Index with a range whose bound comes from a NUL search
     NUL_SEARCH = ('std::iter::Iterator::position', 'std::iter::Iterator::rposition', 'std::iter::DoubleEndedIterator::rposition', 'core::slice::memchr::memchr',
